@@ -161,6 +161,10 @@ func init() {
 							if userSent != granted && prop == "pass" {
 								prop = fmt.Sprintf("FAIL C09 user request transmitted=%v although the authentication reply grants=%v", userSent, granted)
 							}
+							// ... and against a peer that grants the login and answers, the call succeeds (C08: a healthy peer)
+							if granted && !strings.HasPrefix(res[0], "ok") && !strings.Contains(prop, "FAIL C09 client") {
+								addVerdict(&prop, "FAIL C08 the peer grants the login and answers the request, and the call does not succeed: "+trunc(res[0], 100))
+							}
 							s.close()
 							cw.add(fmt.Sprintf("hist %s %s | %s", hexOf([]byte("authuser")), hexOf([]byte("authpw")), strings.Join(ops, " | ")), strings.Join(res, " | "),
 								fmt.Sprintf("N auth tag=%d dt=%d extra=%d next=%d", uint32(tag), dt, extra, next), prop)
